@@ -336,9 +336,9 @@ def _corr_primitive_table(ctx):
             ctx.count('primitive-missing-in-this-numpy:' + name)
             continue
         done = False
-        for a in (base.copy(), (base + 1j * base.T).copy()):
-            b = a.T.copy()
-            a0, b0 = a.copy(), b.copy()
+        for a in (base.copy(order='K'), (base + 1j * base.T).copy(order='K')):
+            b = a.T.copy(order='K')
+            a0, b0 = a.copy(order='K'), b.copy(order='K')
             args, r = _probe_calls(fn, a, b)
             if args is None:
                 continue
@@ -350,7 +350,7 @@ def _corr_primitive_table(ctx):
                      f'np.{name}: shares memory with an argument={shares}, arguments unchanged={unchanged}')
         if not done:
             ctx.count('primitive-not-probed:' + name)
-    a = base.copy()
+    a = base.copy(order='K')
     for m in sorted(w.nd_used):
         if not hasattr(a, m):
             continue
@@ -370,7 +370,7 @@ def _corr_primitive_table(ctx):
     ctx.corr('primitive-table[array]', not np.shares_memory(np.array(a), a) and not np.shares_memory(np.array(a, copy=True), a),
              'np.array(x) copies')
     for name in ('fill_diagonal',):
-        x = a.copy()
+        x = a.copy(order='K')
         np.fill_diagonal(x, 7.)
         ctx.corr('primitive-table[inplace]', not np.array_equal(x, a), 'np.fill_diagonal modifies its first argument')
 
@@ -494,7 +494,7 @@ def _corr_translator_corpus(ctx):
         if not name.startswith(('m_', 'p_')):
             continue
         a, b = rng.normal(size=(4, 3)), rng.normal(size=(4, 3))
-        a0, b0 = a.copy(), b.copy()
+        a0, b0 = a.copy(order='K'), b.copy(order='K')
         ns[name](a, b)
         dyn = {n for n, x, x0 in (('a', a, a0), ('b', b, b0)) if x.shape != x0.shape or not np.array_equal(x, x0)}
         static = set(rec['mutates'])
